@@ -1,9 +1,17 @@
 #!/bin/sh
-# Builds the framework offline from files on disk: Lean model + theorems, rsmodel, Rust harness.
+# Builds the framework offline from files on disk: Lean model + property theorems, rsmodel, Rust harness.
 set -e
 cd "$(dirname "$0")"
 export CARGO_NET_OFFLINE=true
-( cd lean && lake build )
 [ -f harness/Cargo.lock ] || cp /repo/Cargo.lock harness/Cargo.lock
 ( cd harness && cargo build --offline --release && cargo build --offline )
+# C16's Lean input is regenerated from the running code
+mkdir -p lean/RSVerif/Gen
+./harness/target/release/rsharness c16-gen --out lean/RSVerif/Gen/LazyDeps.lean
+mods=""
+for f in lean/RSVerif/Properties/C*.lean; do
+  m=$(basename "$f" .lean)
+  mods="$mods RSVerif.Properties.$m"
+done
+( cd lean && lake build rsmodel $mods )
 echo setup-ok
